@@ -15,6 +15,7 @@ import (
 	"fmt"
 	"os"
 	"path/filepath"
+	"runtime"
 	"sort"
 	"strings"
 	"testing"
@@ -53,6 +54,12 @@ var c02Collision = map[string]string{
 
 // project-based collision inputs (paths relative to the tree root of C10's layout)
 var c02Tree = map[string]string{
+	// a second repository with another configuration, and a file outside any repository in a
+	// directory above both
+	"q/.git/HEAD":                                    "ref: refs/heads/main\n",
+	"q/.github/actionlint.yaml":                      "self-hosted-runner:\n  labels:\n    - qqq\nconfig-variables:\n  - QVAR\n",
+	"q/.github/workflows/other.yml":                  "on: push\njobs:\n  a:\n    runs-on: qqq\n    steps:\n      - run: echo ${{ vars.QVAR }} ${{ vars.ZZZ }}\n  b:\n    runs-on: zzz\n    steps:\n      - run: echo\n",
+	"top.yml":                                        "on: push\njobs:\n  a:\n    runs-on: zzz\n    steps:\n      - run: echo ${{ vars.ANY }}\n",
 	"p/.git/HEAD":                                    "ref: refs/heads/main\n",
 	"p/.github/actionlint.yaml":                      "self-hosted-runner:\n  labels:\n    - zzz\n    - aaa\nconfig-variables:\n  - ZZZ\n  - AAA\n",
 	"p/.github/actions/broken/action.yml":            "name: [broken\n",
@@ -300,9 +307,9 @@ func TestVerifC02(t *testing.T) {
 	r.Extra["map_sites_reached_this_shard"] = len(st)
 
 	// ---- (2) interleavings of multi-file runs
-	files := []string{"two-jobs-broken-action.yml", "missing-required.yml", "second.yml", "callee.yml"}
+	files := []string{"two-jobs-broken-action.yml", "missing-required.yml", "second.yml", "callee.yml", "../../../q/.github/workflows/other.yml", "../../../top.yml"}
 	var idx int64
-	for _, order := range [][]int{{0, 2}, {2, 0}, {1, 2, 3}, {3, 1}, {2, 1, 0}} {
+	for _, order := range [][]int{{0, 2}, {2, 0}, {1, 2, 3}, {3, 1}, {2, 1, 0}, {1, 4}, {4, 1}, {5, 1, 4}, {5, 4}} {
 		identByCPUs := map[int]string{}
 		for _, cpus := range []int{1, 2} {
 			idx++
@@ -590,4 +597,38 @@ func c02Comparators(r *vReport) {
 		}
 	}
 	r.Class("comparators", true)
+}
+
+// TestVerifC02Race is the free-running pass of C02 (built with -race by vcheck): the multi-file
+// orders of part (2) under real goroutines. Unsynchronised accesses are outside the model of the
+// cooperative scheduler (its hand-offs are happens-before edges); this pass is where the race
+// detector can see them. Sampling: it supports the data-race-freedom assumption, it does not decide it.
+func TestVerifC02Race(t *testing.T) {
+	root := vTempDir(t, "c02race-")
+	vWriteFiles(t, root, c02Tree)
+	files := []string{"two-jobs-broken-action.yml", "missing-required.yml", "second.yml", "callee.yml", "../../../q/.github/workflows/other.yml", "../../../top.yml"}
+	reps := vEnvInt("VERIF_RACE_REPS", 6)
+	runs := 0
+	for _, procs := range []int{2, 4, 16} {
+		old := runtime.GOMAXPROCS(procs)
+		for rep := 0; rep < reps; rep++ {
+			for _, order := range [][]int{{0, 2}, {1, 2, 3}, {1, 4}, {4, 1}, {5, 1, 4}, {5, 4}, {0, 1, 2, 3, 4, 5}} {
+				var paths []string
+				for _, k := range order {
+					paths = append(paths, filepath.Join(root, "p/.github/workflows", files[k]))
+				}
+				var out bytes.Buffer
+				l, err := NewLinter(&out, &LinterOptions{WorkingDir: root})
+				if err != nil {
+					t.Fatal(err)
+				}
+				if _, err := l.LintFiles(paths, nil); err != nil {
+					t.Fatal(err)
+				}
+				runs++
+			}
+		}
+		runtime.GOMAXPROCS(old)
+	}
+	fmt.Printf("VERIF-RACE-RUNS %d\n", runs)
 }
